@@ -21,7 +21,7 @@ FLAVOURS = {
              '-DVF_SAN=1'],
     'tsan': ['-O1', '-g0', '-fsanitize=thread', '-DVF_SAN=1', '-DVF_TSAN=1'],
 }
-NSHARDS = 14
+NSHARDS = 24
 
 
 def _hash_tree(h, root, pattern='**/*'):
@@ -38,6 +38,10 @@ def build_key(flavour, extra_defs=()):
     _hash_tree(h, HARNESS, '*')
     for p in ('pool.py', 'pooldef.py', 'build.py', 'namesdef.py'):
         with open(os.path.join(VERIF, 'lib', p), 'rb') as f:
+            h.update(f.read())
+    tj = os.path.join(VERIF, 'pool', 'tables.json')
+    if os.path.exists(tj):
+        with open(tj, 'rb') as f:
             h.update(f.read())
     h.update(flavour.encode())
     h.update(' '.join(extra_defs).encode())
